@@ -10,6 +10,7 @@ package c12
 import (
 	"fmt"
 	"reflect"
+	"sort"
 	"strconv"
 	"strings"
 	"testing"
@@ -71,7 +72,7 @@ func (sc scen) name(m *model) string {
 	case "race":
 		for g := 0; g < 2; g++ {
 			if g == 1 {
-				sb.WriteString(" || ")
+				sb.WriteString(" & ")
 			}
 			first := true
 			for k, c := range sc.calls {
@@ -258,6 +259,11 @@ func scenario(id string, sc scen, last bool) e1lib.Scenario {
 							halted = true
 						}
 					}
+				}
+				if sc.kind == "illegal" && k == len(sc.calls)-1 && k > 0 {
+					// the caller issues the non-permitted message long after the conversation
+					// went quiet: it is the first message sendLoop takes, not part of a batch
+					vtime.Sleep(10 * time.Millisecond)
 				}
 				issue(k)
 			}
@@ -537,6 +543,25 @@ var configs = []string{
 	"keep-alive/NtN/client",
 }
 
+// uniform reports whether all gaps of a wait pattern are of the same kind.
+func uniform(w []bool) bool {
+	for k := 2; k < len(w); k++ {
+		if w[k] != w[1] {
+			return false
+		}
+	}
+	return true
+}
+
+// generate enumerates the API histories. Bounds (deviations from the canonical schedule):
+//
+//	quick:    length <= 3; responder "first": bound 1; responder "last": canonical schedule
+//	thorough: length <= 4; responder "first": length <= 2 (and RequestNext x3 pipelined) bound 2,
+//	          length 3 bound 1, length 4 bound 1 (chain-sync: every wait pattern, the other
+//	          protocols: all-pipelined and all-waited); responder "last": length <= 3 bound 1,
+//	          length 4 canonical; racing callers: 2 calls bound 2, 3 calls bound 1, 4 calls bound 1
+//	          for chain-sync (canonical otherwise); non-permitted first message bound 2, after a
+//	          waited prefix bound 1
 func generate(thorough bool) []e1lib.Scenario {
 	var scs []e1lib.Scenario
 	maxLen := 3
@@ -545,27 +570,37 @@ func generate(thorough bool) []e1lib.Scenario {
 	}
 	for _, id := range configs {
 		sh := getShared(id)
+		chainSync := strings.HasPrefix(id, "chain-sync")
 		for _, last := range []bool{false, true} {
 			m := sh.mod[last]
-			add := func(sc scen, minB, maxB int, budget time.Duration) {
+			add := func(sc scen, bound int) {
 				s := scenario(id, sc, last)
-				s.MinB, s.MaxB, s.Budget = minB, maxB, budget
+				s.MinB, s.MaxB = bound, bound
+				s.Budget = []time.Duration{20 * time.Second, 60 * time.Second, 400 * time.Second}[bound]
 				scs = append(scs, s)
 			}
 			// one caller: every conforming history, every pattern of pipelined / waited calls
 			for _, h := range m.conforming(maxLen) {
 				for _, w := range gaps(len(h)) {
 					sc := scen{kind: "seq", calls: h, wait: w}
+					n := len(h)
 					switch {
 					case !thorough && last:
-						// quick: the second responder policy on the canonical schedule only
-						add(sc, 0, 0, 10*time.Second)
+						add(sc, 0)
 					case !thorough:
-						add(sc, 1, 1, 20*time.Second)
-					case len(h) <= 3 && !last:
-						add(sc, 1, 2, 60*time.Second)
+						add(sc, 1)
+					case n == 4 && !chainSync && !uniform(w):
+						// not generated
+					case last && n == 4:
+						add(sc, 0)
+					case last:
+						add(sc, 1)
+					case n <= 2:
+						add(sc, 2)
+					case n == 3 && chainSync && !w[1] && !w[2] && h[0] == h[1] && h[1] == h[2] && m.alpha[h[0]].Label == "RequestNext":
+						add(sc, 2)
 					default:
-						add(sc, 1, 1, 40*time.Second)
+						add(sc, 1)
 					}
 				}
 			}
@@ -578,19 +613,22 @@ func generate(thorough bool) []e1lib.Scenario {
 						sc.owner = append(sc.owner, g)
 					}
 				}
+				n := len(sc.calls)
 				switch {
 				case !thorough && last:
-					add(sc, 0, 0, 10*time.Second)
+					add(sc, 0)
 				case !thorough:
-					add(sc, 1, 1, 20*time.Second)
-				case len(sc.calls) <= 3 && !last:
-					add(sc, 1, 2, 60*time.Second)
+					add(sc, 1)
+				case n == 4 && (last || !chainSync):
+					add(sc, 0)
+				case last || n >= 3:
+					add(sc, 1)
 				default:
-					add(sc, 1, 1, 40*time.Second)
+					add(sc, 2)
 				}
 			}
 			// a non-permitted message: first of the history, or after a conforming prefix whose
-			// replies the caller waited for (so it is the first message sendLoop takes)
+			// replies the caller waited for and a pause (so it is the first message sendLoop takes)
 			if last {
 				continue
 			}
@@ -602,8 +640,11 @@ func generate(thorough bool) []e1lib.Scenario {
 			prefixes = append(prefixes, m.conforming(pl)...)
 			for _, pre := range prefixes {
 				bad := m.illegalAfter(pre)
-				if m.run(append(append([]int(nil), pre...), bad[0])).badInDone && len(bad) > 2 {
-					bad = bad[:2] // after termination every letter is non-permitted: two suffice
+				if len(bad) == 0 {
+					continue
+				}
+				if m.run(append(append([]int(nil), pre...), bad[0])).badInDone {
+					bad = bad[:1] // after termination every letter is non-permitted: one suffices
 				}
 				for _, x := range bad {
 					calls := append(append([]int(nil), pre...), x)
@@ -612,10 +653,10 @@ func generate(thorough bool) []e1lib.Scenario {
 						w[k] = true
 					}
 					sc := scen{kind: "illegal", calls: calls, wait: w}
-					if thorough {
-						add(sc, 1, 2, 60*time.Second)
+					if thorough && len(pre) == 0 {
+						add(sc, 2)
 					} else {
-						add(sc, 1, 1, 20*time.Second)
+						add(sc, 1)
 					}
 				}
 			}
@@ -626,4 +667,25 @@ func generate(thorough bool) []e1lib.Scenario {
 
 func TestC12(t *testing.T) {
 	e1lib.Main(t, "C12", generate)
+}
+
+func TestCount(t *testing.T) {
+	for _, th := range []bool{false, true} {
+		cnt := map[string]int{}
+		for _, s := range generate(th) {
+			f := strings.Split(s.Name, "|")
+			cnt[fmt.Sprintf("%s %s %s len=%d maxB=%d", f[0], f[1], f[3], strings.Count(f[2], "+")+strings.Count(f[2], "~")+strings.Count(f[2], " & ")+1, s.MaxB)]++
+		}
+		var ks []string
+		for k := range cnt {
+			ks = append(ks, k)
+		}
+		sort.Strings(ks)
+		tot := 0
+		for _, k := range ks {
+			fmt.Println(th, k, cnt[k])
+			tot += cnt[k]
+		}
+		fmt.Println("total", tot)
+	}
 }
